@@ -51,7 +51,7 @@ CLAIMED = {
    note='md5 is uninterpreted; text-mode tell() and the csv/json decoders used to count rows are CPython; stats bytes vs descriptor bytes is a listed finding',
    ref='6/C09'),
  'C10': dict(
-   technique='Lean 4 proof (matcher = specification for every regex oracle; frame theorem for every mapSel processor) + step correspondence + frame oracle on real code + two-step frame oracle (frame under composition) + translator tie: the function(s) re-translated from the working tree into the PyLite embedding on every run and proved equal to the model (Tie_matcher_resolve: ResourceMatcher.__init__/.match = Sel.resolve for every selector form and regex oracle) + pyeval correspondence (real function vs evaluator of the translated syntax)',
+   technique='Lean 4 proof (matcher = specification for every regex oracle; frame theorem for every mapSel processor) + step correspondence + frame oracle on real code + two-step frame oracle (frame under composition) + translator tie: the function(s) re-translated from the working tree into the PyLite embedding on every run and proved equal to the model (Tie_matcher_resolve: ResourceMatcher.__init__/.match = Sel.resolve for every selector form and regex oracle; Tie_frame_<processor> x13: the row-phase dispatch loop of each processor yields unmatched resources unchanged) + pyeval correspondence (real function vs evaluator of the translated syntax)',
    text='Theorems C10_matcher_spec / C10_frame_* hold for all packages, selectors and regex oracles; the model is tied to the code by the step correspondence (real processor vs compiled model on generated packages) and the frame property is re-checked on the real output of every selector-taking processor.',
    note='re is an oracle parameter (table per case); processors not in Layer A (set_type, validate, sort_rows, printer, parallelize, add_computed_field, find_replace, update_schema, load) are covered by the frame oracle on the real code only; PyLite translator + evaluator are trusted and validated by the pyeval correspondence',
    ref='6/C10'),
@@ -71,9 +71,9 @@ CLAIMED = {
    note='tabulator parsing and Schema.infer are third-party (parse faithfulness by comparison only); schema casting is shared with C14; the `while True` of the numbering is modelled with fuel (termination by distinct candidates is argued, not proved)',
    ref='6/C13'),
  'C14': dict(
-   technique='Lean 4 proof (schema_validator loop = per-policy specification, for every cast function) + validate correspondence + policy oracle on real code + transform-before-cast theorems (nulls included) + translator tie: the function(s) re-translated from the working tree into the PyLite embedding on every run and proved equal to the model (Tie_handler_* / Tie_handlers_castField: ignore, drop, clear, raise_exception = the policy cases of castField) + pyeval correspondence (real function vs evaluator of the translated syntax)',
+   technique='Lean 4 proof (schema_validator loop = per-policy specification, for every cast function) + validate correspondence + policy oracle on real code + transform-before-cast theorems (nulls included) + translator tie: the function(s) re-translated from the working tree into the PyLite embedding on every run and proved equal to the model (Tie_vloop / Tie_vloop_model: the whole loop of schema_validator = the model schemaValidator for every cast function and policy; Tie_handler_*: ignore, drop, clear, raise_exception) + pyeval correspondence (real function vs evaluator of the translated syntax)',
    text='For every cast function, table, number and position of bad values: drop = filter+cast, ignore/clear keep all rows, custom handlers by truthiness, raise aborts at the first bad row with its absolute index, emitted values are casts; tied to the code by the validate correspondence with the real cast_value outcomes and re-checked directly on real set_type/validate runs.',
-   note='Field.cast_value is a parameter (its outcomes are supplied per case); field names of the schema assumed distinct; field-name patterns with a top-level alternation are not generated (their anchoring is not pinned by the property); the try/except loop around the handlers is outside the translated subset (validate correspondence); PyLite translator + evaluator are trusted and validated by the pyeval correspondence',
+   note='Field.cast_value is a parameter (its outcomes are supplied per case); field names of the schema assumed distinct; field-name patterns with a top-level alternation are not generated (their anchoring is not pinned by the property); try/except is translated for bodies whose failure leaves the state unchanged; a handler that updates the row reports it through the write-back convention; PyLite translator + evaluator are trusted and validated by the pyeval correspondence',
    ref='6/C14'),
  'C18': dict(
    technique='Lean 4 proof (transition system of producer / N workers / fetcher / collector: termination measure, multiset conservation, 10-clause inductive invariant, deadlock freedom, exactly-once at termination; all N>=1, all inputs, all schedules) + sched correspondence under a controlled scheduler + real multi-process runs',
@@ -91,14 +91,14 @@ CLAIMED = {
    note='regex via oracle table; rename onto an existing untouched field is outside the proved theorem (guard of the _partial statement)',
    ref='6/C15'),
  'C16': dict(
-   technique='Lean 4 proof (row conservation of concatenate, exact copy of duplicate, delete_resource = filter) + step correspondence + Python-spec oracle',
+   technique='Lean 4 proof (row conservation of concatenate, exact copy of duplicate, delete_resource = filter) + step correspondence + Python-spec oracle + translator tie (Tie_delete_resource_loop: the loop of delete_resource, re-translated from the working tree on every run, yields exactly the unmatched resources)',
    text='Conservation and position theorems for all package shapes and sizes; correspondence on generated packages incl. >1000-row resources and batch sizes; spec oracle on the real output.',
    note='kvfile (duplicate spill) assumed order-preserving on 8-hex-digit keys; aliasing not modelled (probed)',
    ref='6/C16'),
  'C17': dict(
-   technique='Lean 4 proof (filter = List.filter, dedupe first-of-key + idempotent, unpivot shape/count) + step correspondence + Python-spec oracle + translator tie: the function(s) re-translated from the working tree into the PyLite embedding on every run and proved equal to the model (Tie_filter_process: the generator of filter_rows.process_resource = the filter, by induction over the rows through the evaluator loop) + pyeval correspondence (real function vs evaluator of the translated syntax)',
+   technique='Lean 4 proof (filter = List.filter, dedupe first-of-key + idempotent, unpivot shape/count) + step correspondence + Python-spec oracle + translator tie: the function(s) re-translated from the working tree into the PyLite embedding on every run and proved equal to the model (Tie_filter_process, Tie_deduper: the generators of filter_rows.process_resource and deduplicate.deduper = filter / first-row-of-each-key, by induction through the evaluator loop) + pyeval correspondence (real function vs evaluator of the translated syntax)',
    text='Theorems hold for all tables; the compiled model is compared with the real processors on generated tables and an independent Python specification is checked on the real output.',
-   note='regex via oracle table; Python == across bool/int/Decimal modelled by pyEq; deduper / unpivot_rows / old_style_conditions are translated and covered by the pyeval correspondence, tie theorems not yet written; PyLite translator + evaluator are trusted and validated by the pyeval correspondence',
+   note='regex via oracle table; Python == across bool/int/Decimal modelled by pyEq; unpivot_rows / old_style_conditions are translated and covered by the pyeval correspondence, tie theorems not yet written; PyLite translator + evaluator are trusted and validated by the pyeval correspondence',
    ref='6/C17'),
  'C20': dict(
    technique='Lean 4 proof (table state machine: rewrite / append / update=fold of upserts; latest values per key, key uniqueness preserved, truthful flags, histories compose) + sqlhist correspondence + SELECT-after-every-dump oracle on SQLite',
